@@ -109,6 +109,7 @@ var streamPool = sync.Pool{
 
 func NewStream(id uint32, win int32) *Stream {
 	strm := streamPool.Get().(*Stream)
+	verifPool("stream", strm, true)
 	strm.id = id
 	strm.window = int64(win)
 	strm.state = StreamStateIdle
